@@ -3,14 +3,14 @@ Each is a small, realistic change that keeps the package importable."""
 M = []
 
 
-def m(mid, props, file, old, new, desc):
-    M.append({"id": mid, "props": props, "file": file, "old": old, "new": new, "desc": desc})
+def m(mid, props, file, old, new, desc, more=()):
+    M.append({"id": mid, "props": props, "file": file, "old": old, "new": new, "desc": desc, "more": list(more)})
 
 
 G = "src/tensora/iteration_graph/_generate_ir.py"
-m("gen-min-to-max", ["C01"], G, "loop_variable.declare(types.integer).assign(Min.join(index_variables))",
-  "loop_variable.declare(types.integer).assign(Max.join(index_variables))",
-  "sparse co-iteration advances to the maximum instead of the minimum stored coordinate")
+m("gen-min-first-only", ["C01", "C02"], G, "loop_variable.declare(types.integer).assign(Min.join(index_variables))",
+  "loop_variable.declare(types.integer).assign(Min.join(index_variables[:1]))",
+  "sparse co-iteration advances to the first operand's coordinate instead of the minimum over all operands")
 m("gen-dense-pos-wrong-dim", ["C01", "C05"], G,
   "pointer_value = previous_pointer.times(dimension_name(index_variable_i)).plus(",
   "pointer_value = previous_pointer.times(dimension_name(self.index_variable)).plus(",
@@ -24,8 +24,8 @@ m("gen-is-sparse-output-none", ["C16"], G,
   "contraction loops over sparse operands become dense loops (work grows with the dimension)")
 W = "src/tensora/iteration_graph/_write_sparse_ir.py"
 m("crd-capacity-gt", ["C05", "C02"], W, "    with source.branch(GreaterThanOrEqual(pointer, capacity)):\n        source.append(capacity.assign(capacity.times(2)))\n        source.append(crd.assign",
-  "    with source.branch(GreaterThan(pointer, capacity)):\n        source.append(capacity.assign(capacity.times(2)))\n        source.append(crd.assign",
-  "crd growth test uses > instead of >= (one element written past the end)")
+  "    with source.branch(GreaterThanOrEqual(pointer, capacity.plus(1))):\n        source.append(capacity.assign(capacity.times(2)))\n        source.append(crd.assign",
+  "crd growth test uses pointer >= capacity + 1 (one element written past the end)")
 m("pos-assembly-off-by-one", ["C02", "C01"], W, "source.append(pos.idx(previous_pointer.plus(1)).assign(pointer))",
   "source.append(pos.idx(previous_pointer).assign(pointer))", "pos[parent] written instead of pos[parent+1]")
 A = "src/tensora/iteration_graph/outputs/_append.py"
@@ -63,8 +63,9 @@ m("llvm-min-unsigned", ["C06"], L, '    condition = builder.icmp_signed("<", lef
 T = "src/tensora/tensor.py"
 m("operator-add-intersection", ["C11"], T, '                "d" if mode1 == Mode.dense or mode2 == Mode.dense else "s"',
   '                "d" if mode1 == Mode.dense and mode2 == Mode.dense else "s"', "a + b output format uses the intersection of densities")
-m("matmul-no-shape-check", ["C11"], T, "            if left.dimensions[1] != right.dimensions[0]:\n                raise ValueError(\n                    f\"Cannot apply operator @ between tensor with dimensions {left.dimensions} and \"\n                    f\"tensor with dimensions {right.dimensions}\"\n                )\n\n            # Output format are the uncontracted dimensions of the matrices",
-  "            # Output format are the uncontracted dimensions of the matrices", "matrix @ matrix skips the inner-dimension check")
+m("matvec-format-from-wrong-dimension", ["C11"], T, "            output_format = left.format.modes[left.format.ordering[0]].character\n            return evaluate_tensora(\n                \"output(i) = left(i,j) * right(j)\"",
+  "            output_format = left.format.modes[left.format.ordering[1]].character\n            return evaluate_tensora(\n                \"output(i) = left(i,j) * right(j)\"",
+  "matrix @ vector takes the result mode from the contracted dimension")
 m("tensor-crd-descending", ["C09"], T, "            idx = sorted(node.keys())", "            idx = sorted(node.keys(), reverse=len(node) > 2)",
   "segments with more than two coordinates are stored in descending order")
 m("pickle-drops-ordering", ["C09"], T, '            "mode_ordering": self.format.ordering,', '            "mode_ordering": tuple(range(self.order)),',
@@ -81,7 +82,8 @@ m("ownership-skipped-for-scalars", ["C13"], TM, "        take_ownership_of_array
 PR = "src/tensora/problem.py"
 m("problem-eq-ignores-formats", ["C15"], PR, "            return self.assignment == other.assignment and tuple(self.formats.items()) == tuple(\n                other.formats.items()\n            )",
   "            return self.assignment == other.assignment and tuple(self.formats.keys()) == tuple(\n                other.formats.keys()\n            )",
-  "Problem equality ignores the formats (with the matching hash)")
+  "Problem equality and hash ignore the formats' contents",
+  more=[("return hash((self.assignment, tuple(self.formats.items())))", "return hash((self.assignment, tuple(self.formats.keys())))")])
 E = "src/tensora/expression/ast.py"
 m("deparse-subtract-no-parens", ["C12"], E, '        right_string = self.right.deparse()\n        if isinstance(self.right, (Add, Subtract)):\n            right_string = f"({right_string})"\n\n        return left_string + " - " + right_string',
   '        right_string = self.right.deparse()\n        if isinstance(self.right, Add):\n            right_string = f"({right_string})"\n\n        return left_string + " - " + right_string',
